@@ -1,7 +1,9 @@
 package props
 
 import (
+	"flag"
 	"fmt"
+	"strconv"
 	"io"
 	"os"
 	"testing"
@@ -170,4 +172,17 @@ func firstDiff(a, b []byte) int {
 		return n
 	}
 	return -1
+}
+
+// flagSetChecks1 makes every following rapid.Check in this process run its property
+// exactly once (used by enumerations that go through rapid only for the SyncTest plumbing).
+func flagSetChecks1() error { return flag.Set("rapid.checks", "1") }
+
+func shardInfo() (shard, nsh int) {
+	shard, _ = strconv.Atoi(os.Getenv("VERIF_SHARD_INDEX"))
+	nsh, _ = strconv.Atoi(os.Getenv("VERIF_NSHARDS"))
+	if nsh < 1 {
+		nsh = 1
+	}
+	return
 }
